@@ -119,6 +119,10 @@ def cells_for(run, seed):
     var_attrs = [
         ("disabled", "disabled", "disabled", SKIP, "    {A}\n    Bad,"),
         ("to_string", "to_string = \"a\"", "to_string = \"b\"", STR_OUT + PARSE + MSG, "    {A}\n    Bad,"),
+        ("to_string(empty first)", "to_string = \"\"", "to_string = \"b\"", STR_OUT + PARSE + MSG, "    {A}\n    Bad,"),
+        ("to_string(empty second)", "to_string = \"a\"", "to_string = \"\"", STR_OUT + PARSE + MSG, "    {A}\n    Bad,"),
+        ("message(empty first)", "message = \"\"", "message = \"b\"", MSG, "    {A}\n    Bad,"),
+        ("detailed_message(empty second)", "detailed_message = \"a\"", "detailed_message = \"\"", MSG, "    {A}\n    Bad,"),
         ("message", "message = \"a\"", "message = \"b\"", MSG, "    {A}\n    Bad,"),
         ("detailed_message", "detailed_message = \"a\"", "detailed_message = \"b\"", MSG, "    {A}\n    Bad,"),
         ("transparent", "transparent", "transparent", TRANSP, "    {A}\n    Bad(&'static str),"),
@@ -151,6 +155,9 @@ def cells_for(run, seed):
     enum_attrs = [
         ("serialize_all", "serialize_all = \"snake_case\"", "serialize_all = \"kebab-case\"", STR_OUT + PARSE + MSG),
         ("prefix", "prefix = \"a\"", "prefix = \"b\"", STR_OUT),
+        ("prefix(empty first)", "prefix = \"\"", "prefix = \"b\"", STR_OUT),
+        ("prefix(empty second)", "prefix = \"a\"", "prefix = \"\"", STR_OUT),
+        ("prefix(both empty)", "prefix = \"\"", "prefix = \"\"", STR_OUT),
         ("use_phf", "use_phf", "use_phf", ["EnumString"]),
         ("parse_err_ty", "parse_err_ty = MyErr, parse_err_fn = my_err", "parse_err_ty = MyErr", ["EnumString"]),
         ("parse_err_fn", "parse_err_ty = MyErr, parse_err_fn = my_err", "parse_err_fn = my_err", ["EnumString"]),
